@@ -101,7 +101,13 @@ pub fn maybe_gen_extract(rng: &mut Rng, _tier: Tier, idx: u64) -> Option<Case> {
         members,
         globs,
         uniq: r.next_u64(),
-        cancel_after: if r.chance(1, 12) { Some(0) } else { None },
+        // Some(0): cancelled before the start; Some(k): a request is cancelled once k permille (of 1.1 x the archive size) have
+        // been read from the archive, then the same request is repeated without cancellation into the same directory
+        cancel_after: match r.below(12) {
+            0 => Some(0),
+            1 | 2 => Some(1 + r.below(1000) as usize),
+            _ => None,
+        },
         prior: if r.chance(1, 3) {
             (0..r.urange(1, 3)).map(|i| Member { name: format!("prior{}/p{}.dlt", i, r.below(100)), data: r.bytes(20), is_dir: false }).collect()
         } else {
@@ -273,6 +279,15 @@ fn run_extract_inner(
     if members.iter().any(|m| !m.is_dir && !stays_inside(&m.name)) {
         ctx.fired("hostile_member_name");
     }
+    ctx.cfg("cancelled_while_extracting");
+    if let Some(k) = cancel_after {
+        if k > 0 {
+            let r = run_cancel_history(members, &zipbytes, k, uniq, &sandbox, ctx);
+            ctx.nontrivial = !members.is_empty();
+            ctx.sim_time(1000);
+            return r;
+        }
+    }
     ctx.cfg("cancelled_before_start");
     let before = snapshot(&root, &[work.clone()]);
     let log = slog::Logger::root(slog::Discard, slog::o!());
@@ -423,6 +438,118 @@ fn run_extract_inner(
     drop(temp_dirs);
     if std::env::var("VERIF_KEEP").is_err() {
         let _ = std::fs::remove_dir_all(&root);
+    }
+    Ok(())
+}
+
+/// in-memory archive source that raises the cancel flag once `budget` bytes have been handed out
+struct TripReader {
+    data: Arc<Vec<u8>>,
+    pos: u64,
+    budget: Arc<std::sync::atomic::AtomicI64>,
+    cancel: Arc<AtomicBool>,
+    max_read: usize,
+}
+impl std::io::Read for TripReader {
+    fn read(&mut self, buf: &mut [u8]) -> std::io::Result<usize> {
+        let avail = (self.data.len() as u64).saturating_sub(self.pos) as usize;
+        let n = std::cmp::min(std::cmp::min(buf.len(), avail), self.max_read);
+        buf[..n].copy_from_slice(&self.data[self.pos as usize..self.pos as usize + n]);
+        self.pos += n as u64;
+        if self.budget.fetch_sub(n as i64, std::sync::atomic::Ordering::SeqCst) - (n as i64) <= 0 {
+            self.cancel.store(true, std::sync::atomic::Ordering::SeqCst);
+        }
+        Ok(n)
+    }
+}
+impl std::io::Seek for TripReader {
+    fn seek(&mut self, p: std::io::SeekFrom) -> std::io::Result<u64> {
+        let np: i128 = match p {
+            std::io::SeekFrom::Start(o) => o as i128,
+            std::io::SeekFrom::Current(o) => self.pos as i128 + o as i128,
+            std::io::SeekFrom::End(o) => self.data.len() as i128 + o as i128,
+        };
+        if np < 0 {
+            return Err(std::io::Error::new(std::io::ErrorKind::InvalidInput, "seek before start"));
+        }
+        self.pos = np as u64;
+        Ok(self.pos)
+    }
+}
+impl adlt::utils::cloneable_seekable_reader::HasLength for TripReader {
+    fn len(&self) -> u64 {
+        self.data.len() as u64
+    }
+}
+
+/// history: [a first request for one small member] -> the request cancelled after `k` permille of the archive
+/// have been read -> the same request again, not cancelled, into the same directory. Whatever a request
+/// reports has to exist with the member's content; a cancelled request reports nothing.
+fn run_cancel_history(members: &[Member], zipbytes: &[u8], k: usize, uniq: u64, sandbox: &Path, ctx: &mut Ctx) -> Result<(), Violation> {
+    // plain names only; a file that several member names denote (d1/b.dlt, d1/./b.dlt) is left to the alias checks of the other runs
+    let aliased = |m: &Member| members.iter().filter(|o| !o.is_dir && normalise(&o.name) == normalise(&m.name)).count() > 1;
+    let files: Vec<&Member> = members.iter().filter(|m| !m.is_dir && !m.name.ends_with('/') && stays_inside(&m.name) && normalise(&m.name).to_string_lossy() == m.name.as_str() && !aliased(m)).collect();
+    if files.is_empty() {
+        return Ok(());
+    }
+    let dir = sandbox.join("cancel_target");
+    std::fs::create_dir_all(&dir).unwrap();
+    let data = Arc::new(zipbytes.to_vec());
+    let rename: std::collections::HashMap<String, String> = Default::default();
+    let with_filter = (uniq >> 20) % 3 != 0;
+    let filter: Option<Vec<String>> = if with_filter { Some(files.iter().map(|m| m.name.clone()).collect()) } else { None };
+    let check_reported = |what: &str, res: &Vec<PathBuf>| -> Result<(), Violation> {
+        for rel in res {
+            let m = match files.iter().find(|m| PathBuf::from(&m.name) == *rel) {
+                Some(m) => m,
+                None => continue, // names outside this leg's population are judged by the other extraction runs
+            };
+            match std::fs::read(dir.join(rel)) {
+                Ok(b) if b == m.data => {}
+                Ok(b) => viol!("extract-content-after-cancel", "{}: {} is reported as extracted but has {} of the member's {} bytes (history: request cancelled after {} permille of the archive were read, then repeated into the same directory)", what, rel.display(), b.len(), m.data.len(), k),
+                Err(e) => viol!("extract-reported-missing", "{}: reported {} cannot be read: {}", what, rel.display(), e),
+            }
+        }
+        Ok(())
+    };
+    let never = Arc::new(AtomicBool::new(false));
+    let mk = |budget: i64, cancel: &Arc<AtomicBool>| TripReader { data: data.clone(), pos: 0, budget: Arc::new(std::sync::atomic::AtomicI64::new(budget)), cancel: cancel.clone(), max_read: [usize::MAX, 4096, 100][((uniq >> 24) % 3) as usize] };
+    if (uniq >> 22) % 2 == 0 {
+        // the directory is known from an earlier successful request
+        let first = vec![files[0].name.clone()];
+        if let Ok(res) = adlt::utils::unzip::extract_to_dir(mk(i64::MAX, &never), &dir, Some(first), &rename, &never) {
+            check_reported("first request", &res)?;
+        }
+    }
+    let cancel = Arc::new(AtomicBool::new(false));
+    let budget = std::cmp::max(1, (zipbytes.len() as u128 * 11 * k as u128 / 10_000) as i64);
+    let r1 = adlt::utils::unzip::extract_to_dir(mk(budget, &cancel), &dir, filter.clone(), &rename, &cancel);
+    match &r1 {
+        Ok(res) => {
+            ctx.probe("cancel_came_too_late");
+            check_reported("request with late cancellation", res)?;
+        }
+        Err(_) => {
+            ctx.fired("cancelled_while_extracting");
+            // left-overs of the interrupted member?
+            let partial = files.iter().any(|m| std::fs::metadata(dir.join(&m.name)).map(|md| md.len() != m.data.len() as u64).unwrap_or(false));
+            if partial {
+                ctx.probe("partial_file_present_after_cancelled_request");
+            }
+        }
+    }
+    let r2 = adlt::utils::unzip::extract_to_dir(mk(i64::MAX, &never), &dir, filter.clone(), &rename, &never);
+    match r2 {
+        Ok(res) => {
+            check_reported("repeated request", &res)?;
+            let want: BTreeSet<PathBuf> = files.iter().map(|m| PathBuf::from(&m.name)).collect();
+            let got: BTreeSet<PathBuf> = res.iter().filter(|r| want.contains(*r)).cloned().collect();
+            if got != want {
+                viol!("extract-set-after-cancel", "repeated request reported {:?} of the requested {:?}", got, want);
+            }
+            ctx.probe("repeated_request_after_cancel_checked");
+        }
+        Err(e) => viol!("extract-refused", "repeated request failed on a well-formed archive: {}", e),
     }
     Ok(())
 }
